@@ -19,6 +19,7 @@ Fixpoint norec (g : G) : bool :=
   | Foldl a i _ | FoldlWith a i _ => norec a && norec_it i
   | Foldr i b _ | FoldrWith i b _ => norec_it i && norec b
   | RecoverVia _ _ | RecoverSkipUntil _ _ _ _ | RecoverSkipRetry _ _ _ => false
+  | ExtWrap _ => false          (* hands its failure back as a value: the pending error is re-recorded at the parser's start *)
   | Pratt atom ops => norec atom && forallb norec_op ops
   end
 with norec_it (i : IT) : bool :=
@@ -525,6 +526,7 @@ Proof.
     exact (proj1 (pratt_mono _ IH IHE g ops ctx Hn1 Hn2 He n) _ _ _ _ _ Hp H).
   - (* GroupArr *) eapply (group_sem_mono _ IH IHE) in H; eauto.
   - discriminate.
+  - (* ExtWrap *) discriminate.
 Qed.
 
 End Furthest.
